@@ -160,7 +160,29 @@ fn scaling_specs(r: &mut TestRunner, n: usize) -> Vec<Spec> {
     let count = any::<u8>();
     for i in 0..n {
         let mut rules = vec![];
-        match i % 5 {
+        let mut lets: Vec<(String, Re)> = vec![];
+        match i % 6 {
+            5 => {
+                // repetition nested 10-16 levels deep (directly, or through a chain of `let`s):
+                // a construction that compiles the operand of `+` or `*` twice doubles per level
+                let d = 10 + (sample(&count, r) as usize % 7);
+                let via_lets = i % 12 == 5;
+                let mut cur = Re::Char('a');
+                for lvl in 0..d {
+                    let body = cat(cur, Re::Char(if lvl % 2 == 0 { 'c' } else { 'd' }));
+                    let rep = if sample(&count, r) % 4 == 0 { star(body) } else { plus(body) };
+                    if via_lets {
+                        let name = format!("l{}", lvl);
+                        lets.push((name.clone(), rep));
+                        cur = Re::Var(name);
+                    } else {
+                        cur = rep;
+                    }
+                }
+                rules.push((cat(Re::Char('a'), cur), None));
+                rules.push((plus(Re::Set(vec![SetItem::R('a', 'z')])), None));
+                rules.push((Re::Char(' '), None));
+            }
             0 => {
                 // 10-40 keyword rules plus an identifier rule
                 let k = 10 + (sample(&count, r) as usize % 31);
@@ -221,7 +243,7 @@ fn scaling_specs(r: &mut TestRunner, n: usize) -> Vec<Spec> {
                 rules.push((cat(Re::Char('#'), a), Some(Re::Builtin("ascii_whitespace".into()))));
             }
         }
-        out.push(crate::props2::simple_spec(rules, i % 2 == 0, vec![]));
+        out.push(crate::props2::simple_spec(rules, i % 2 == 0, lets));
     }
     out
 }
@@ -304,6 +326,14 @@ pub fn run_c12(tier: Tier) -> i32 {
                     for e in extra {
                         s.items.push(Top::Rule(e));
                     }
+                }
+            }
+            if i % 7 == 3 {
+                // a bracket set of 10-23 individually listed characters, sometimes with an early
+                // one listed again at the end, as an alternative of the first rule
+                let many = gen::many_char_set(&sample(&tapes, &mut r), 10 + i % 6);
+                if let Some(r0) = s.rules_mut().into_iter().next() {
+                    r0.re = alt(r0.re.clone(), many);
                 }
             }
             capped += cap_spec(&mut s);
@@ -861,7 +891,17 @@ pub fn run_c16(tier: Tier) -> i32 {
         let y = gen::fix_nullable(sample(&small, &mut r), 'b');
         let px = print_re(&x, Paren::Full);
         let py = print_re(&y, Paren::Full);
-        let (def, must_reject, what) = match i % 5 {
+        let (def, must_reject, what) = match i % 7 {
+            5 => (
+                format!("Lexer -> u32; rule Init {{ {} = 0, }} let v = {}; rule A {{ $v = 1, }} rule B {{ ($v)+ {} = 2, }}", px, py, px),
+                false,
+                "a top-level `let` placed between two rule sets is used in the later rule sets",
+            ),
+            6 => (
+                format!("Lexer -> u32; let u = {}; rule Init {{ $u = 0, }} let v = $u {}; rule A {{ $v = 1, }} let w = $v | $u; rule B {{ $w $v = 2, }}", px, py),
+                false,
+                "top-level `let`s between rule sets use earlier ones and are used in later rule sets",
+            ),
             0 => (
                 format!("Lexer -> u32; rule Init {{ let v = {}; $v = 0, }} rule A {{ $v {} = 1, }}", px, py),
                 true,
